@@ -695,9 +695,15 @@ func c01RelatedExpansions(run *mon.Run, r *rand.Rand) {
 		a[0], a[64] = a[0]&0x0f, a[64]&0x0f // both field elements below p without reduction
 		b := append(append([]byte{}, a[:k]...), mon.RandBytes(r, 128-k)...)
 		b[64] &= 0x0f
+		if bytes.Equal(a, b) { // (the random tail may reproduce a's: the two outputs must differ)
+			b[127] ^= 1
+		}
 		pairs = append(pairs, pair{fmt.Sprintf("common-prefix-%d", k), a, b})
 		c := append(mon.RandBytes(r, 128-k), a[128-k:]...)
 		c[0], c[64] = c[0]&0x0f, c[64]&0x0f
+		if bytes.Equal(a, c) {
+			c[0] ^= 1
+		}
 		pairs = append(pairs, pair{fmt.Sprintf("common-suffix-%d", k), a, c})
 		d := append([]byte{}, a...)
 		d[k] ^= 1 << uint(k%8)
